@@ -411,6 +411,112 @@ theorem C04_min (l : List Version) :
     · exact h2
     · exact h3 y hy
 
+/-! ## sorting and sets (`slice::sort`, `BTreeSet`) -/
+
+theorem leB_iff (a b : Version) : Version.leB a b = true ↔ a ≤ b := by
+  show (cmpVersion a b != .gt) = true ↔ (cmpVersion a b).isLE = true
+  cases cmpVersion a b <;> simp [Ordering.isLE]
+
+theorem leB_trans (a b c : Version) (h1 : Version.leB a b = true) (h2 : Version.leB b c = true) :
+    Version.leB a c = true := by
+  rw [leB_iff] at *; exact C04_trans a b c h1 h2
+
+theorem leB_total (a b : Version) : (Version.leB a b || Version.leB b a) = true := by
+  rw [Bool.or_eq_true, leB_iff, leB_iff]; exact C04_total a b
+
+/-- **sorting yields an ascending list** -/
+theorem C04_sort_sorted (l : List Version) : (sortVersions l).Pairwise (· ≤ ·) := by
+  have := List.pairwise_mergeSort leB_trans leB_total l
+  exact this.imp (fun h => (leB_iff _ _).mp h)
+
+/-- … that is a rearrangement of the input -/
+theorem C04_sort_perm (l : List Version) : (sortVersions l).Perm l := List.mergeSort_perm l _
+
+/-- … and keeps precedence-equal (or already ordered) elements in their original order (stability:
+versions differing only in build metadata stay as they were) -/
+theorem C04_sort_stable (l : List Version) (a b : Version) (hab : a ≤ b) (h : [a, b].Sublist l) :
+    [a, b].Sublist (sortVersions l) :=
+  List.pair_sublist_mergeSort leB_trans leB_total ((leB_iff a b).mpr hab) h
+
+/-- an already sorted list is left alone -/
+theorem C04_sort_idem (l : List Version) : sortVersions (sortVersions l) = sortVersions l :=
+  List.mergeSort_of_pairwise ((C04_sort_sorted l).imp (fun h => (leB_iff _ _).mpr h))
+
+/-- the fields precedence looks at -/
+abbrev Key := Nat × Nat × Nat × List Ident
+
+def keyVersion (k : Key) : Version := ⟨k.1, k.2.1, k.2.2.1, k.2.2.2, []⟩
+def keyLe (k1 k2 : Key) : Prop := keyVersion k1 ≤ keyVersion k2
+
+theorem keyVersion_hashKey (v : Version) : cmpVersion (keyVersion v.hashKey) = cmpVersion { v with build := [] } := rfl
+
+theorem key_le_iff (a b : Version) : keyLe a.hashKey b.hashKey ↔ a ≤ b := by
+  unfold keyLe
+  show (cmpVersion _ _).isLE = true ↔ (cmpVersion a b).isLE = true
+  have := C04_build_ignored a b [] []
+  simp only [keyVersion, Version.hashKey]
+  rw [← this]
+
+theorem keyLe_antisymm (k1 k2 : Key) (h1 : keyLe k1 k2) (h2 : keyLe k2 k1) : k1 = k2 := by
+  obtain ⟨e1, e2, e3, e4⟩ := C04_antisymm _ _ h1 h2
+  obtain ⟨a, b, c, d⟩ := k1
+  obtain ⟨a', b', c', d'⟩ := k2
+  simp only [keyVersion] at e1 e2 e3 e4
+  subst e1 e2 e3 e4
+  rfl
+
+/-- **the sorted order is unique up to build metadata**: any two ascending rearrangements of the same
+list agree field by field on everything precedence looks at -/
+theorem C04_sorted_unique (l1 l2 : List Version) (hp : l1.Perm l2) (h1 : l1.Pairwise (· ≤ ·))
+    (h2 : l2.Pairwise (· ≤ ·)) : l1.map Version.hashKey = l2.map Version.hashKey := by
+  apply List.Perm.eq_of_pairwise (le := keyLe)
+  · intro a b _ _ hab hba; exact keyLe_antisymm a b hab hba
+  · rw [List.pairwise_map]; exact h1.imp (fun h => (key_le_iff _ _).mpr h)
+  · rw [List.pairwise_map]; exact h2.imp (fun h => (key_le_iff _ _).mpr h)
+  · exact hp.map _
+
+/-- in particular every correct sorting routine returns what the model's sort returns, up to build
+metadata -/
+theorem C04_any_sort_agrees (l l' : List Version) (hp : l'.Perm l) (hs : l'.Pairwise (· ≤ ·)) :
+    l'.map Version.hashKey = (sortVersions l).map Version.hashKey :=
+  C04_sorted_unique l' (sortVersions l) (hp.trans (C04_sort_perm l).symm) hs (C04_sort_sorted l)
+
+theorem mem_dedupFirst (l : List Version) (y : Version) : y ∈ dedupFirst l → y ∈ l := by
+  induction l with
+  | nil => simp [dedupFirst]
+  | cons x xs ih =>
+    simp only [dedupFirst, List.mem_cons, List.mem_filter]
+    rintro (rfl | ⟨h, _⟩)
+    · exact Or.inl rfl
+    · exact Or.inr (ih h)
+
+/-- a set of versions holds one element per precedence class … -/
+theorem C04_set_distinct (l : List Version) : (dedupFirst l).Pairwise (fun a b => cmpVersion a b ≠ .eq) := by
+  induction l with
+  | nil => simp [dedupFirst]
+  | cons x xs ih =>
+    simp only [dedupFirst, List.pairwise_cons, List.mem_filter]
+    refine ⟨?_, ih.filter _⟩
+    rintro y ⟨_, hy⟩
+    simpa using hy
+
+/-- … and every input element is represented -/
+theorem C04_set_covers (l : List Version) (y : Version) (hy : y ∈ l) :
+    ∃ x ∈ dedupFirst l, cmpVersion x y = .eq := by
+  induction l with
+  | nil => cases hy
+  | cons x xs ih =>
+    simp only [List.mem_cons] at hy
+    rcases hy with rfl | hy
+    · exact ⟨y, by simp [dedupFirst], C04_refl y⟩
+    · obtain ⟨z, hz, hzy⟩ := ih hy
+      by_cases hxz : cmpVersion x z = .eq
+      · refine ⟨x, by simp [dedupFirst], ?_⟩
+        exact TransCmp.eq_trans (cmp := cmpVersion) hxz hzy
+      · refine ⟨z, ?_, hzy⟩
+        simp only [dedupFirst, List.mem_cons, List.mem_filter]
+        exact Or.inr ⟨hz, by simpa using hxz⟩
+
 /-! ## Non-vacuity: the order distinguishes the cases the statement names -/
 
 example : cmpVersion ⟨1, 0, 0, [.alpha "alpha".toList], []⟩ ⟨1, 0, 0, [], []⟩ = .lt := by decide
